@@ -684,11 +684,14 @@ where
     }
 
     fn update_needed_len(&mut self) {
-        self.needed_input_size = (self.last_index as f32
-            + self.chunk_size as f32
-                / (0.5 * self.resample_ratio as f32 + 0.5 * self.target_ratio as f32)
-            + self.interpolator.len() as f32)
-            .ceil() as usize;
+        // Input time covered by the next chunk. The step between output frames goes
+        // linearly from 1/resample_ratio to 1/target_ratio, reaching it at the last frame.
+        let t_start = 1.0 / self.resample_ratio;
+        let t_end = 1.0 / self.target_ratio;
+        let frames = self.chunk_size as f64;
+        let advance = frames * t_start + (t_end - t_start) * (frames + 1.0) / 2.0;
+        self.needed_input_size =
+            (self.last_index + advance + self.interpolator.len() as f64).ceil() as usize;
     }
 }
 
